@@ -372,25 +372,27 @@ def h_sample_single(ctx, which, sampler_kind):
             ctx.check(len(o) == n_user, "sample:state-size")
 
 
-def h_seed_reproducible(ctx, which, method):
+def h_seed_reproducible(ctx, which, method, seed_kind="int"):
     from symx import stubs
+    import numpy as real_np
     lw = ctx.lw
+    SEED = {"int": 42, "zero": 0, "npint": real_np.int64(42), "float": 42.0}[seed_kind]
     c, inp = _circuit(ctx, which)
     eta = ctx.real("eta", 0, 1)
     d = ctx.real("d", 0, 1)
     if method == "inputs":
         det = lw.emulator.Detector(efficiency=eta, p_dark=d, photon_counting=False)
         smp = lw.emulator.Sampler(c, inp, detector=det)
-        call = lambda: smp.sample_N_inputs(1, seed=42)  # noqa: E731
+        call = lambda: smp.sample_N_inputs(1, seed=SEED)  # noqa: E731
     elif method == "outputs":
         smp = lw.emulator.Sampler(c, inp, detector=lw.emulator.Detector(efficiency=1, p_dark=0, photon_counting=False))
-        call = lambda: smp.sample_N_outputs(2, seed=42)  # noqa: E731
+        call = lambda: smp.sample_N_outputs(2, seed=SEED)  # noqa: E731
     else:
         if c._build().loss_modes:
             ctx.reached()
             return
         smp = lw.emulator.QuickSampler(c, inp)
-        call = lambda: smp.sample_N_outputs(2, seed=42)  # noqa: E731
+        call = lambda: smp.sample_N_outputs(2, seed=SEED)  # noqa: E731
     try:
         smp.probability_distribution
     except (ValueError, lw.emulator.EmulatorError):
@@ -405,7 +407,12 @@ def h_seed_reproducible(ctx, which, method):
         a = sorted((tuple(k.s), v) for k, v in r1.items())
         b = sorted((tuple(k.s), v) for k, v in r2.items())
         return a == b
-    same = en.run_all(once)
+    try:
+        same = en.run_all(once)
+    except TypeError as e:
+        # every seed that process_random_seed accepts has to work in every sampling method
+        ctx.fail("seed-accepted-by-the-sampling-method", f"{seed_kind}: {e}"[:120])
+        return
     ctx.check(all(same), "same-seed-gives-the-same-result", {"method": method})
 
 
@@ -431,5 +438,6 @@ def harnesses(tier):
         ("sample_N_outputs", h_sample_n_outputs, no),
         ("dark-counts-refused", h_dark_counts_refused, [dict(which="bs")]),
         ("sample", h_sample_single, [dict(which=w, sampler_kind=k) for w in ("bs", "herald1", "herald0-lossy", "hom-herald", "herald-only") for k in ("sampler", "quick")]),
-        ("seed", h_seed_reproducible, [dict(which=w, method=m) for w in ("bs", "herald1", "bunch-herald") for m in ("inputs", "outputs", "quick")]),
+        ("seed", h_seed_reproducible, [dict(which=w, method=m) for w in ("bs", "herald1", "bunch-herald") for m in ("inputs", "outputs", "quick")]
+         + [dict(which="herald1", method=m, seed_kind=k) for m in ("inputs", "outputs", "quick") for k in ("zero", "npint", "float")]),
     ]
